@@ -3,8 +3,8 @@ package main
 import (
 	"fmt"
 	"reflect"
-	"strconv"
 	"sort"
+	"strconv"
 	"strings"
 
 	flags "github.com/jessevdk/go-flags"
